@@ -34,6 +34,16 @@ let swallow_possible m cs store subj =
   List.exists (fun t -> t.t_ceval = E &&
     List.exists (fun u -> u.t_ceval = T && (same_or t u || same_rsu t u)) valid) valid
 
+(* the user side of the fast paths reads ReadStartingWithUser(type, relation, {user, user:*}) sorted
+   by object; the request storage wrapper (CombinedTupleReader) drops the second tuple of the same
+   object BEFORE the condition filter runs: trigger = two valid tuples of one (object, relation),
+   both matching the user filter, one with its condition met and one not *)
+let dedup_possible m cs store subj =
+  let valid = List.filter (fun t -> valid_for_read m cs t) store in
+  let by_user t = (t.t_sub = subj) || (match t.t_sub, subj with SWild ty, SObj o -> ty = o.otype | _ -> false) in
+  List.exists (fun t -> by_user t && t.t_ceval = T &&
+    List.exists (fun u -> by_user u && u.t_ceval <> T && u.t_sub <> t.t_sub && u.t_obj = t.t_obj && u.t_rel = t.t_rel) valid) valid
+
 let scenario_common model conds tuples atoms =
   let m = dec_model model in
   let cs = List.map (fun c -> n_of_int (as_int c)) (as_list conds) in
@@ -55,6 +65,7 @@ let kind1 model conds tuples atoms maxdepth subjects =
       let pathx = List.map dec_pair (as_list px) in
       let (v, conv) = lfp m cs store subj ats in
       let sw_any = lazy (swallow_possible m cs store subj) in
+      let dd_any = lazy (dedup_possible m cs store subj) in
       List.iter (fun rv ->
         match as_list rv with
         | [ot; oi; r; base; pouts] ->
@@ -72,7 +83,11 @@ let kind1 model conds tuples atoms maxdepth subjects =
               (* the default planner's outcomes are outcomes of the default-engine model *)
               List.iter (fun impl ->
                 let in_model = match impl_aout impl with Some a -> List.mem a oset | None -> false in
-                if not in_model then
+                (* Check/V1.v reads all userset types of a relation with ONE condition filter; the code
+                   gives every weight-2-eligible userset type its own iterator and filter (also when the
+                   default strategy is chosen), so an evaluation error that V1 sees swallowed can surface:
+                   an evaluation error is accepted here whenever one exists (has_e) *)
+                if not in_model && not (impl = 3 && has_e) then
                   diffs := (Printf.sprintf "%s default-strategy impl=%s model={%s} spec=%s" where (impl_s impl)
                               (String.concat "," (List.map aout_s oset)) (b3s spec)) :: !diffs)
                 (match pouts with d :: _ -> d | [] -> []);
@@ -101,6 +116,8 @@ let kind1 model conds tuples atoms maxdepth subjects =
                   if in_model && tr.tr_excl_sub_cycle then knowns := ("excl_sub_cycle " ^ txt) :: !knowns
                   else if spec = E && impl <= 2 && (if p = 0 then in_model && tr.tr_swallow else (in_model && tr.tr_swallow) || Lazy.force sw_any)
                   then knowns := ("cond_err_swallowed " ^ txt) :: !knowns
+                  else if p <> 0 && impl <= 2 && Lazy.force dd_any
+                  then knowns := ("fastpath_dedup_before_condition " ^ txt) :: !knowns
                   else props := txt :: !props) all;
               (* the answer must not depend on strategy / tuning / repetition *)
               let classes = List.sort_uniq compare (List.map (fun (_, x) -> dclass x) all) in
@@ -123,10 +140,11 @@ let kind1 model conds tuples atoms maxdepth subjects =
    | [], [], (_ :: _ as ks) ->
      (* one flag per record: prefer the rarer ones so that each gets reported *)
      let pick f = List.find_opt (fun k -> String.length k >= String.length f && String.sub k 0 (String.length f) = f) ks in
-     (match pick "cond_err_outcome_varies", pick "cond_err_swallowed" with
-      | Some k, _ -> "KNOWN " ^ k
-      | None, Some k -> "KNOWN " ^ k
-      | None, None -> "KNOWN " ^ List.hd ks)
+     (match pick "fastpath_dedup_before_condition", pick "cond_err_outcome_varies", pick "cond_err_swallowed" with
+      | Some k, _, _ -> "KNOWN " ^ k
+      | None, Some k, _ -> "KNOWN " ^ k
+      | None, None, Some k -> "KNOWN " ^ k
+      | None, None, None -> "KNOWN " ^ List.hd ks)
    | [], [], [] -> "OK")
 
 (* ---- kind 2 ---- *)
@@ -285,6 +303,9 @@ let kind5 model conds tuples atoms maxdepth subjects =
                 else if fam = 1 && ec = 3 && dup_this m then knowns := ("lo_optimised_error_dup_this " ^ txt) :: !knowns
                 else if fam = 2 && ec = 0 && loose_tuples && got = set_of (Lazy.force vstrict)
                 then knowns := ("lo_pipeline_strict_condition " ^ txt) :: !knowns
+                else if fam = 1 && subset && model_inter_diff m &&
+                        List.for_all (fun (ej, ec', got') -> engine_family ej = 1 || ec' = 6 || (ec' = 0 && got' = expected)) res
+                then knowns := ("lo_optimised_misses_objects " ^ txt) :: !knowns
                 else props := (Printf.sprintf "%s [subset=%b dup_this=%b inter_diff=%b conds=%b loose=%b]" txt subset (dup_this m)
                                  (model_inter_diff m) (model_conditions m) loose_tuples) :: !props) bad
             end
